@@ -5,6 +5,7 @@ package main
 import (
 	"fmt"
 	"go/token"
+	"go/types"
 	"sort"
 	"strings"
 
@@ -244,7 +245,27 @@ func checkC18(c *Ctx) Meta {
 			for _, a := range cl.Call.Args {
 				if w.labeled(fn, a) {
 					ord++
-					c.OK("C18-WIDTH", fmt.Sprintf("%s:padded-by:%s#%d", FuncName(fn), f.Name(), ord), c.Pos(cl.Pos()), "minimal-length value passes through "+f.Name())
+					key := fmt.Sprintf("%s:padded-by:%s#%d", FuncName(fn), f.Name(), ord)
+					// the width padded to must not be computed from the (minimal) length of the value itself
+					selfSized := false
+					for _, other := range cl.Call.Args {
+						if other == a {
+							continue
+						}
+						if b, isB := other.Type().Underlying().(*types.Basic); !isB || b.Info()&types.IsInteger == 0 {
+							continue
+						}
+						for x := range backSlice(other).vals {
+							if lc, isC := x.(*ssa.Call); isC && calleeID(lc) == "builtin.len" && (lc.Call.Args[0] == a || sameOriginValue(fn, lc.Call.Args[0], a)) {
+								selfSized = true
+							}
+						}
+					}
+					if selfSized {
+						c.Bad("C18-WIDTH", key, c.Pos(cl.Pos()), "the width "+f.Name()+" pads to is computed from the length of the minimal-length value itself: leading zero bytes that the value lost are not restored (an entropy or key with enough leading zeros comes back short)")
+					} else {
+						c.OK("C18-WIDTH", key, c.Pos(cl.Pos()), "minimal-length value passes through "+f.Name()+" with a width independent of its own length")
+					}
 				}
 			}
 		})
@@ -252,6 +273,67 @@ func checkC18(c *Ctx) Meta {
 	c.Note("sources ((*big.Int).Bytes() calls in hdkeychain/keystore): %d; labelled fields: %v; labelled sinks examined: %d", w.sourceCnt, keysOf(w.field), nSinks)
 	if w.sourceCnt < 4 {
 		c.Bad("C18-WIDTH", "anchor:sources", "", fmt.Sprintf("reason=anchor-missing: only %d (*big.Int).Bytes() sources found", w.sourceCnt))
+	}
+
+	// a derived child owns its byte slices: Zero() wipes slices in place, so a slice shared between keys
+	// (a memoised fingerprint, the parent's chain code) would be wiped under the feet of the other key
+	c.Rule("C18-OWN", "the byte slices Child hands to the new key (key, chain code, parent fingerprint) are freshly computed in that call, never storage held by the parent or shared between siblings (Zero() wipes in place)", 1)
+	if f := c.MustFn("C18-OWN", "poc/wallet/keystore/hdkeychain", "(*ExtendedKey).Child"); f != nil {
+		key := "Child:child-owns-its-slices"
+		bad := ""
+		n := 0
+		var originFresh func(fn *ssa.Function, v ssa.Value, depth int) string
+		originFresh = func(fn *ssa.Function, v ssa.Value, depth int) string {
+			why := ""
+			valueOrigins(fn, v, func(root ssa.Value) {
+				switch x := root.(type) {
+				case *ssa.Slice:
+					if w2 := originFresh(fn, x.X, depth); w2 != "" {
+						why = w2
+					}
+				case *ssa.UnOp:
+					if _, fld, _, ok := fieldOfValue(x); ok {
+						why = "field " + fld
+					}
+				case *ssa.Call:
+					if g := x.Call.StaticCallee(); g != nil && pkgOf(g) == pkgHD && depth < 3 && len(g.Blocks) > 0 {
+						for _, ret := range returnsOf(g) {
+							for _, r := range ret.Results {
+								if _, isS := r.Type().Underlying().(*types.Slice); isS {
+									if w2 := originFresh(g, r, depth+1); w2 != "" {
+										why = w2 + " (returned by " + g.Name() + ")"
+									}
+								}
+							}
+						}
+					}
+				case *ssa.Parameter:
+					if depth > 0 {
+						why = "parameter " + x.Name()
+					}
+				}
+			})
+			return why
+		}
+		for _, cl := range callsIn(f, pkgHD+".NewExtendedKey") {
+			for i, a := range cl.Call.Args {
+				if _, isS := a.Type().Underlying().(*types.Slice); !isS || i == 0 {
+					continue // version bytes are constants of the network
+				}
+				n++
+				if why := originFresh(f, a, 0); why != "" {
+					bad = fmt.Sprintf("argument #%d of NewExtendedKey is %s", i, why)
+				}
+			}
+		}
+		switch {
+		case n == 0:
+			c.Bad("C18-OWN", key, c.Pos(f.Pos()), "reason=anchor-missing: NewExtendedKey call in Child")
+		case bad != "":
+			c.Bad("C18-OWN", key, c.Pos(f.Pos()), bad+": the child shares that storage with its parent and siblings, and Zero() of any of them wipes it in place — the serialised form (parent fingerprint) of the others changes")
+		default:
+			c.OK("C18-OWN", key, c.Pos(f.Pos()), fmt.Sprintf("%d slice arguments, each computed in the call", n))
+		}
 	}
 
 	// PAD helpers right-align
